@@ -155,6 +155,19 @@ CHECKS = {
               "basis function in a second channel (channel independence) through ex.get_spectrum for power/amplitude x sum/average; random states are "
               "compared with the explicit per-mode sum."),
         note="TLC, numpy cos/sin, tolerance 1e-10"),
+    "C18": dict(
+        category="model_checking", design_ref="4/C18", engine="ic",
+        technique="TLC pipeline machine Validate/Draw/Shape/Offset/ZeroMean/StdOne/MaxOne/Wrap/Multi over a record of exact facts (MC_IC) with promise/consistency/reject/clamp/spectral invariants + replay of every terminal configuration into the real generators",
+        text=("MC_IC runs every public random generator x normalisation flags x offset kind (zero, constant, range) x wrapper nesting (clamp, positive "
+              "and negative scale) x multi-channel copies x D through the documented pipeline; each stage has gen/kill rules on a record of facts with "
+              "exact rational values (mean, mean range, std, max|u|, min, max, band limit, spectral shaping law, unit DC ratio, function form, channel "
+              "count). TLC checks that every accepted option combination establishes what its flags promise, that the record never contradicts itself, "
+              "that the accept/reject decision is total and made before anything is drawn, that clamping reaches both limits under any later scaling, and "
+              "that the spectral facts survive affine wrappers. Every terminal state is replayed: rejected combinations must raise ValueError; accepted "
+              "ones are built and called for several keys on even and odd grids in D=1,2,3 and every fact is measured (shape, finiteness, determinism, "
+              "key dependence, statistics, spectral support, ratio to the white-noise spectrum of the same draw against the power law / diffusion "
+              "multiplier, function form == sampled form, channel j of the multi-channel wrapper == sub-generator j with sub-key j)."),
+        note="TLC, dump parser; fixed parameter instances; degenerate RandomDiscontinuities draws (constant raw field) skipped; values of random draws are not predicted; tolerance 1e-9"),
     "C20": dict(
         category="model_checking", design_ref="4/C20", engine="validate",
         technique="TLC decision tables (MC_Validate) replayed into every public class + TLC trace validation (Trace_Validate) of hook-recorded __call__ decisions (own drivers and the repository's tests)",
@@ -220,6 +233,8 @@ def main():
              "kind_free_text": "TLC laminar-solution machine + spec->code replay"},
             {"name": "metrics", "path": "spec/MC_Metrics.tla harness/checks/c16.py", "serves_properties": ["C16"],
              "kind_free_text": "TLC exact metric pipeline + spec->code replay"},
+            {"name": "ic", "path": "spec/MC_IC.tla harness/checks/c18.py", "serves_properties": ["C18"],
+             "kind_free_text": "TLC fact-propagation pipeline + spec->code replay"},
             {"name": "rollout", "path": "spec/MC_Rollout.tla spec/Trace_Rollout.tla harness/checks/c14.py", "serves_properties": ["C14"],
              "kind_free_text": "TLC state machine + replay + trace validation"},
         ],
